@@ -105,12 +105,20 @@ class BasePort:
         """
         with self._lock:
             if not self.closed:
-                if hasattr(self, 'autoreset') and self.autoreset:
+                if (hasattr(self, 'autoreset') and self.autoreset
+                        and not getattr(self, '_resetting', False)):
+                    # A device may close the port from inside _send()
+                    # when a write fails (SocketPort does). That nested
+                    # close() must not start another reset.
+                    self._resetting = True
                     try:
                         self.reset()
                     except OSError:
                         pass
+                    finally:
+                        self._resetting = False
 
+            if not self.closed:
                 self._close()
                 self.closed = True
 
